@@ -228,8 +228,17 @@ def cmd_check(args):
     # replay / report
     from . import replay
     vio_lines = []
+    # one report per task: the primary failed obligation (contract-class first) carries trace + native replay,
+    # the task's other failed obligations are listed in the same replay file
+    by_task = {}
     for u, r, o in violations:
-        path, suffix = replay.report_violation(prop, u, r, o, scratch, tier)
+        by_task.setdefault((u['name'], r['task']), []).append((u, r, o))
+    for key in sorted(by_task):
+        grp = by_task[key]
+        pref = {'postcondition': 0, 'assertion': 1, 'precondition': 2, 'loop_invariant_step': 3, 'loop_invariant_base': 3}
+        grp.sort(key=lambda x: (pref.get(x[2]['class'], 5), x[2]['name']))
+        u, r, o = grp[0]
+        path, suffix = replay.report_violation(prop, u, r, o, scratch, tier, others=[x[2] for x in grp[1:]])
         vio_lines.append('VIOLATION property=%s replay=%s%s' % (prop, path, suffix))
     for r, o, k in known_hits:
         print('KNOWN-FINDING: property=%s %s (task %s obligation %s)' % (prop, k['what'], r['task'], o['name']))
@@ -300,6 +309,7 @@ def build_evidence(prop, tier, seed, recs, results, undecided, violations, known
         'callees replaced by their contracts are proved against their own bodies only where a task enforces them; others are listed under assumed',
         'machine integers are bit-vectors with overflow checks; floating point is IEEE-754 binary64 round-to-nearest (no x87, FMA, -ffast-math)',
         'termination only where a decreases clause is given',
+        'allocation below max_size never fails (--no-malloc-may-fail; operator new throwing std::bad_alloc on exhaustion is outside the model)',
     ]
     ev = {
         'property_id': prop, 'tier': tier, 'seed': seed, 'level': 'proof',
